@@ -49,7 +49,7 @@ def execute(p, chooser):
                         if p.get("again") and not p["wait"] and obs.get("shutdown_started") and not obs.get("again_done"):
                             det.wait_until(lambda: obs["returned"])
                             obs["again_done"] = True
-                            obs["in_again"] = True
+                            obs["in_again"] = det.me().name        # the calls of THIS thread are the repeated ones
                             for (k2, o2) in objs:
                                 try:
                                     o2.shutdown(True)
@@ -74,7 +74,7 @@ def execute(p, chooser):
             for idx, (k, o) in enumerate(objs):
                 def wrap(o=o, idx=idx, orig=o.shutdown):
                     def sd(*a, **kw):
-                        if obs.get("in_again"):
+                        if obs.get("in_again") and obs["in_again"] == det.me().name:
                             obs["rec_again"].append((idx, a, tuple(sorted(kw.items()))))
                             return orig(*a, **kw)
                         obs["rec"].append((idx, a, tuple(sorted(kw.items()))))
